@@ -551,7 +551,7 @@ impl Default for GenCfg {
             allow_alias: false,
             allow_phantom: true,
             nested_phantom: false,
-            allow_duration: false,
+            allow_duration: true,
             allow_compact: true,
             allow_codec_skip: true,
             hostile_names: false,
@@ -680,6 +680,16 @@ impl<'r, R: Rng> ProgGen<'r, R> {
                 Ty::Phantom(Ty::Param(i).b())
             }
             18..=21 => self.gen_def_ref(cx, d, heap),
+            22 if self.cfg.allow_alias => {
+                if cx.params.is_empty() && self.chance(0.5) {
+                    // `type BoxedN = Box<Self>`: the Box is invisible in the recorded type name
+                    Ty::Option(
+                        Ty::Alias(format!("Boxed{}", cx.me), Ty::Box(Ty::Def(cx.me, vec![]).b()).b()).b(),
+                    )
+                } else {
+                    Ty::Alias("Word".into(), Ty::Prim(Prim::U32).b())
+                }
+            }
             _ => self.gen_ty(cx, self.cfg.max_depth, heap),
         }
     }
